@@ -75,6 +75,9 @@ type ScriptWriter struct {
 	FailFrom int
 	Calls    int
 	Failed   int
+	// FullCount: a failing call reports len(p) bytes written TOGETHER with the error (nothing is stored): legal
+	// for an io.Writer, and an error all the same
+	FullCount bool
 }
 
 func NewScriptWriter() *ScriptWriter { return &ScriptWriter{FailFrom: -1} }
@@ -84,6 +87,9 @@ func (w *ScriptWriter) Write(p []byte) (int, error) {
 	w.Calls++
 	if w.FailFrom >= 0 && c >= w.FailFrom {
 		w.Failed++
+		if w.FullCount {
+			return len(p), ErrInjected
+		}
 		return 0, ErrInjected
 	}
 	w.Buf = append(w.Buf, p...)
